@@ -16,7 +16,7 @@ META = {
             'must be the old ones minus exactly one own entry, refusals leave the file untouched and occur only for duplicate active mentions.'
             ' The own entry counts wherever the dynamic loader takes it; after a reported success it must not be an active token any more; a foreign unterminated last line keeps its missing line feed; sparse files of 2^31-1..2^33 bytes.',
     'note': 'What remains of the entry\'s own line (blanks, a trailing comment) is not pinned down by the statement: the line may vanish or keep its other tokens. '
-            'An own path that is not at the start of its line is accepted both untouched and removed.',
+            'The own path counts wherever it is an active token of a line (as for the dynamic loader); mentions behind a # are dead text.',
 }
 
 
